@@ -43,6 +43,7 @@ class Pool:
         self.quick = ctx.quick
         self.rng = ctx.rng.fork("c19-pool")
         self.notes = []
+        self.drive = ctx.drive
         self.items = []
 
     def stream(self, api, lines, family, cfg="rel", judge_api=None, describe=None, nontrivial=None,
@@ -108,6 +109,8 @@ def run(ctx):
             fam["calls"] += len(calls)
             fam["with_injected_timeout"] += sum(1 for c in calls if c[1] >= 0)
             site = known_site(calls)
+            if recs[i] is None and i in vlib.LAST_SKIPPED:
+                continue
             if recs[i] is None:
                 rc, err = crashed.get(i, (None, ""))
                 fam["crashes"] += 1
